@@ -29,3 +29,28 @@ Proof. intros xs t cs H. exact (run_inv xs empty [] t cs inv_empty H). Qed.
 (* re-adding is a no-op *)
 Theorem C15_readd_noop : forall t x, In x (vars t) -> add t x = (t, []).
 Proof. exact add_idem. Qed.
+
+(* ---- the clauses of one insertion are FRESH: each mentions the variable being inserted (which was not
+   tracked before) or a helper bit that did not exist before; tracked variables and helper bits only
+   grow (Async/EncoderRegistered.v) ---- *)
+From Resolvo Require Import Cdcl.SolverRegistered.
+
+Theorem C15_add_emits_fresh_clauses : forall t x t' cs,
+  add t x = (t', cs) ->
+  (forall y, In y (vars t) -> In y (vars t')) /\ (nh t <= nh t')%nat /\ In x (vars t') /\
+  (forall y k b, In (y, k, b) cs -> (y = x /\ ~ In x (vars t)) \/ (nh t <= k)%nat).
+Proof. exact amo_add_mono. Qed.
+
+(* every task of the encoder is a step that keeps "the candidates of every Requires clause are registered"
+   and extends the database only by clauses whose at-most-one members are fresh with respect to the state
+   before the step *)
+Theorem C15_encoder_step_registers : forall U P falses st t st' w,
+  run_one U P falses st t = (st', w) -> Reg U st st'.
+Proof. exact reg_run_one. Qed.
+
+(* in the solver model -- where a candidate is installed and a helper variable is assigned only after it
+   was registered (RInv, an invariant of the whole loop nest) -- such a clause never has both literals
+   false when it enters the database: a new at-most-one clause cannot be violated unnoticed *)
+Theorem C15_new_forbid_clause_not_falsified : forall U A (st : sstate A) c,
+  RInv U A st -> fresh_wrt U (s_enc st) c -> forbid_side (tr_lits st) c = true.
+Proof. exact fresh_forbid_side. Qed.
